@@ -21,3 +21,4 @@ open O2P.Gate
 #print axioms post_process_sound
 #print axioms filter_defunct_sound
 #print axioms post_process_admits
+#print axioms post_process_checked
